@@ -83,7 +83,7 @@ fn extra_line(rng: &mut Rng, h: &[Op], p: usize) -> (Vec<u8>, &'static str, Vec<
                     match rng.below(4) {
                         0 => (n, s.k.max(2), s.id),                      // duplicate (or k=2 after k=1.. see premise)
                         1 => (n.max(s.k.saturating_add(2)), s.k.saturating_add(2), s.id), // skip ahead
-                        2 => (n, s.k.saturating_add(1).max(2), Some(s.id.map(|v| (v + 1) % 10).unwrap_or(3))), // other id
+                        2 => (n, s.k.saturating_add(1).max(2), Some(s.id.map(|v| ((v as u32 + 1) % 10) as u8).unwrap_or(3))), // other id
                         _ => (9, 9, s.id),
                     }
                 }
@@ -160,7 +160,8 @@ impl Prop for C17 {
                 nodes,
                 ops,
                 stream: None,
-                config: format!("shape=independence {}", desc),
+                hidden_faults: take_hidden_faults(),
+            config: format!("shape=independence {}", desc),
             };
         }
         let profile = if rng.ratio(1, 2) { LinkProfile::Reassembly } else { LinkProfile::Chaos };
@@ -196,6 +197,7 @@ impl Prop for C17 {
             nodes,
             ops,
             stream: None,
+            hidden_faults: take_hidden_faults(),
             config: format!("shape=metamorphic extra={} at={} {}", kind, p, desc),
         }
     }
@@ -271,7 +273,9 @@ impl Prop for C17 {
                     }
                 }
                 st.probe_if(abs.open, "extra line inserted while a group is open");
-                st.probe_if(a_states != b_states, "parser Debug state differs at end (hint only)");
+                if a_states != b_states {
+                    st.probe("parser Debug state differs at end (hint only)");
+                }
                 let mut h = crate::rng::Fnv::default();
                 for (i, o) in &a {
                     if let Op::Line(l) = &sc.ops[*i] {
